@@ -60,6 +60,7 @@ pub struct ConnectionStats;
 //@include contracts/shared/wire_format_specs.rs
 //@include contracts/shared/ack_specs.rs
 //@include contracts/shared/client_status_specs.rs
+//@include contracts/shared/client_ack_specs.rs
 //@include contracts/shared/client_glue_specs.rs
 //@include contracts/shared/send_loop_specs.rs
 //@include contracts/shared/client_send_specs.rs
